@@ -212,7 +212,8 @@ pub fn escape(frame: &[u8]) -> Vec<u8> {
 }
 
 fn gen_frame(rng: &mut Rng, density: f64, style: u8) -> Vec<u8> {
-    let ty = *rng.pick(&[0x31u8, 0x32, 0x33, 0x33, 0x33]);
+    // type 4 (status) frames travel in the same stream; they are not handed on
+    let ty = *rng.pick(&[0x31u8, 0x32, 0x33, 0x33, 0x33, 0x33, 0x32, 0x31, 0x33, 0x33, 0x34]);
     let n = frame_len(ty);
     let mut f = vec![0u8; n];
     f[0] = 0x1a;
@@ -275,29 +276,42 @@ struct Stream {
     expected: Vec<Vec<u8>>,
     n_under_test: usize,
     wire: Arc<Vec<u8>>,
-    /// wire offsets [start, end) of every frame
+    /// wire offsets [start, end) of every frame that is to be yielded
     spans: Vec<(usize, usize)>,
+    /// wire offsets of every frame on the wire (status frames included)
+    all_spans: Vec<(usize, usize)>,
 }
 
 fn build_stream(plan: &C09Plan) -> Stream {
-    let mut expected: Vec<Vec<u8>> = plan.frames.iter().map(|h| unhex(h)).collect();
-    let n_under_test = expected.len();
+    let mut on_wire: Vec<Vec<u8>> = plan.frames.iter().map(|h| unhex(h)).collect();
     if plan.flush {
-        expected.push(FLUSH_FRAME.to_vec());
-        expected.push(FLUSH_FRAME.to_vec());
+        on_wire.push(FLUSH_FRAME.to_vec());
+        on_wire.push(FLUSH_FRAME.to_vec());
     }
+    let mut expected: Vec<Vec<u8>> = Vec::new();
+    let mut n_under_test = 0;
     let mut wire = Vec::new();
     let mut spans = Vec::new();
-    for f in &expected {
+    let mut all_spans = Vec::new();
+    for (i, f) in on_wire.iter().enumerate() {
         let s = wire.len();
         wire.extend_from_slice(&escape(f));
-        spans.push((s, wire.len()));
+        all_spans.push((s, wire.len()));
+        // status frames (type 4) are consumed by the reader, never yielded
+        if f.get(1) != Some(&0x34) {
+            expected.push(f.clone());
+            spans.push((s, wire.len()));
+            if i < plan.frames.len() {
+                n_under_test += 1;
+            }
+        }
     }
     Stream {
         expected,
         n_under_test,
         wire: Arc::new(wire),
         spans,
+        all_spans,
     }
 }
 
@@ -361,7 +375,7 @@ fn first_diff(a: &[u8], b: &[u8]) -> String {
 /// before the terminal fault (= whole stream when the connection stays open).
 fn judge(st: &Stream, r: &ExecResult, reference: Option<&Vec<Vec<u8>>>, k: usize, end: &End) -> Option<Violation> {
     for p in &r.panics {
-        if p.file.contains("/verif/") {
+        if p.file.contains("/verif/") || p.env_limit() {
             continue;
         }
         return Some(Violation::new(
@@ -451,9 +465,21 @@ fn segs_from_cuts(total: usize, cuts: &[usize]) -> Vec<Seg> {
 }
 
 fn random_segs(rng: &mut Rng, total: usize) -> Vec<Seg> {
-    let style = rng.below(6);
+    let style = rng.below(7);
     let mut segs = Vec::new();
     let mut left = total;
+    if style == 6 {
+        // reads that fill the reader's 1024-byte buffer exactly; the odd
+        // remainder comes first, so that the last read is a full one
+        let first = total % 1024;
+        if first > 0 {
+            segs.push(Seg { len: first, delay_ns: 0, spurious: false, read_cap: 0 });
+        }
+        for _ in 0..total / 1024 {
+            segs.push(Seg { len: 1024, delay_ns: if rng.chance(0.3) { 1_000_000 } else { 0 }, spurious: false, read_cap: 0 });
+        }
+        return segs;
+    }
     while left > 0 {
         let len = match style {
             0 => 1,                                     // dribble
@@ -769,7 +795,8 @@ impl Scenario for C09 {
             _ => {
                 let max = if tier == Tier::Thorough && rng.chance(0.2) { 200 } else { 40 };
                 (
-                    rng.usize(1, max),
+                    // a third of these streams is longer than the reader's buffer
+                    if rng.chance(0.33) { rng.usize(45, 90) } else { rng.usize(1, max) },
                     Mode::Random { n: if tier == Tier::Thorough { 400 } else { 150 }, seed: rng.next_u64() },
                 )
             }
@@ -808,7 +835,7 @@ impl Scenario for C09 {
             if p.frames.len() == 1 {
                 break;
             }
-            let (fs, fe) = st.spans[i];
+            let (fs, fe) = st.all_spans[i];
             let removed = fe - fs;
             let mut q = p.clone();
             q.frames.remove(i);
